@@ -139,8 +139,14 @@ func WithVars(vars map[string]any) QueryOption {
 	}
 }
 
-func New(data Map, query string, options ...QueryOption) (*Query, error) {
-	q := &Query{
+func New(data Map, query string, options ...QueryOption) (q *Query, err error) {
+	// building a query never panics: whatever goes wrong is reported as an error
+	defer func() {
+		if r := recover(); r != nil {
+			q, err = nil, recovered(r)
+		}
+	}()
+	q = &Query{
 		offsetDefinition:    -1,
 		limitDefinition:     -1,
 		groupDefinition:     make(GroupDefinition),
@@ -1842,7 +1848,7 @@ func ExecOrderBy(query *Query, current []any) ([]any, error) {
 func (query *Query) exec() (result any, err error) {
 	defer func() {
 		if r := recover(); r != nil {
-			err = r.(error)
+			err = recovered(r)
 		}
 	}()
 	if query.dual {
@@ -1951,6 +1957,12 @@ func (query *Query) execAndPostProcess() (result any, err error) {
 }
 
 func (query *Query) Exec() (result []any, err error) {
+	// post processing runs outside the recovered region of exec
+	defer func() {
+		if r := recover(); r != nil {
+			result, err = nil, recovered(r)
+		}
+	}()
 	rs, err := query.execAndPostProcess()
 	if err != nil {
 		return nil, err
